@@ -65,6 +65,32 @@ func report(t fataler, st *kvh.Stats, c any, f *kvh.Fail) {
 	t.Fatalf("VIOLATION-CANDIDATE sig=%s replay=%s\n%s", f.Sig, path, f.Msg)
 }
 
+// probeT lets a probe (a fixed schedule owned by the harness) run outside a *testing.T, for --replay.
+type probeT struct{ msg string }
+
+type probeAbort struct{}
+
+func (p *probeT) Fatalf(format string, a ...any) {
+	p.msg = fmt.Sprintf(format, a...)
+	panic(probeAbort{})
+}
+
+// replayProbe re-runs a probe; a violation it reports (a known finding is not one) is the failure of the replay.
+func replayProbe(probe func(t fataler, st *kvh.Stats), property string) (fail *kvh.Fail) {
+	pt := &probeT{}
+	defer func() {
+		if r := recover(); r != nil {
+			if _, ok := r.(probeAbort); ok {
+				fail = &kvh.Fail{Sig: "probe-fails", Msg: pt.msg}
+				return
+			}
+			panic(r)
+		}
+	}()
+	probe(pt, kvh.StatsFor(property))
+	return nil
+}
+
 // finishProperty marks the stats complete; called at the end of every TestCnn.
 func finishProperty(st *kvh.Stats) { st.Complete() }
 
